@@ -177,3 +177,69 @@ func VerifCronTwoEntries() {
 	zzverif.Assert(len(jobs.starts) == before, "nothing_starts_after_stop")
 	zzverif.Cover("cron_two_entries_done")
 }
+
+// Stop and restart: entries registered while the scheduler is stopped (before the first Start and between a Stop and
+// the next Start) are kept; a stopped scheduler starts nothing however far the clock moves; Start is a no-op when
+// already running (one scheduler goroutine, one start per activation); after a restart activations are counted from
+// the restart instant - a job is not started for activations that passed while stopped, and not before its next one;
+// Remove while stopped removes; Stop when not running returns a context that completes.
+//
+//verif:harness prop=C05 name=cron_restart threads=6 sched=delay preempt=2 t_preempt=3 unwind=12 witness=lenient
+func VerifCronRestart() {
+	start := zzverif.TimeFromNanos(1_000_000_000_000)
+	clk := zzverifstubs.NewClock(start)
+	jobs := &vJobs{block: make(chan struct{}), clk: clk}
+	c := New(WithClock(clk), WithLogger(vLogger{}), WithLocation(time.UTC))
+	// periods are forked (the oracle divides by them; a symbolic divisor stalls the solvers)
+	p := time.Duration(1+zzverif.Choose("period", 4)) * time.Second
+	q := time.Duration(1+zzverif.Choose("period2", 4)) * time.Second
+	ctx0 := c.Stop() // not running: nothing to stop, nothing to wait for
+	<-ctx0.Done()
+	id1 := c.Schedule(vEvery{p}, jobs.job(1, false))
+	clk.Advance(3 * p) // not started yet: nothing runs
+	zzverif.WaitQuiescent()
+	zzverif.Assert(jobs.count(1) == 0, "nothing_starts_before_start")
+	zzverif.Assert(len(c.Entries()) == 1, "entry_registered_before_start_is_listed")
+	t0 := clk.Now()
+	c.Start()
+	c.Start() // no-op
+	zzverif.WaitQuiescent()
+	zzverif.Assert(zzverif.ThreadsAliveIs(1), "one_scheduler_goroutine")
+	clk.AdvanceTo(t0.Add(p))
+	zzverif.WaitQuiescent()
+	zzverif.Assert(jobs.count(1) == 1, "one_start_per_activation")
+	ctx := c.Stop()
+	<-ctx.Done()
+	zzverif.WaitQuiescent()
+	zzverif.Assert(zzverif.ThreadsAliveIs(0), "scheduler_gone_after_stop")
+	id2 := c.Schedule(vEvery{q}, jobs.job(2, false)) // registered while stopped
+	clk.Advance(7 * time.Second)
+	zzverif.WaitQuiescent()
+	zzverif.Assert(jobs.count(1) == 1 && jobs.count(2) == 0, "nothing_starts_while_stopped")
+	removeFirst := zzverif.Bool("remove_first_while_stopped")
+	if removeFirst {
+		c.Remove(id1)
+		zzverif.Assert(len(c.Entries()) == 1, "remove_while_stopped_removes")
+	}
+	t1 := clk.Now()
+	c.Start()
+	zzverif.WaitQuiescent()
+	zzverif.Assert(jobs.count(1) == 1 && jobs.count(2) == 0, "restart_does_not_replay_missed_activations")
+	// walk the clock second by second over the next four seconds: each entry starts exactly at t1 + k*period
+	for s := 1; s <= 4; s++ {
+		clk.AdvanceTo(t1.Add(time.Duration(s) * time.Second))
+		zzverif.WaitQuiescent()
+		want1 := 1
+		if !removeFirst {
+			want1 += int(time.Duration(s) * time.Second / p)
+		}
+		zzverif.Assert(jobs.count(1) == want1, "first_entry_once_per_activation_after_restart")
+		zzverif.Assert(jobs.count(2) == int(time.Duration(s)*time.Second/q), "entry_registered_while_stopped_once_per_activation_after_restart")
+	}
+	c.Remove(id2)
+	ctx = c.Stop()
+	<-ctx.Done()
+	zzverif.WaitQuiescent()
+	zzverif.Assert(zzverif.ThreadsAliveIs(0), "scheduler_and_jobs_gone_after_stop")
+	zzverif.Cover("cron_restart_done")
+}
